@@ -240,46 +240,75 @@ def h_clean_failure(ci: int, si: int, pi: int, ei: int, t0: int, t1: int, t2: in
 
 
 # ------------------------------------------------------------------------------------------------
-def pre_lim(nparts: int, max_parts: int, namelen: int, max_hdr: int) -> bool:
-    return 0 <= nparts <= P.NPARTS and 0 <= max_parts <= P.NPARTS + 1 and 1 <= namelen <= 3 \
-        and 0 <= max_hdr <= 60 and in_shard(nparts)
+def pre_lim(nparts: int, max_parts: int, namelen: int, max_hdr: int, entry: int, enabled: bool) -> bool:
+    return 0 <= nparts <= P.NPARTS and in_shard(nparts + (P.NPARTS + 1) * entry) and 0 <= entry <= 2 \
+        and 0 <= max_parts <= P.NPARTS + 1 and 1 <= namelen <= 3 and 0 <= max_hdr <= 60
+
+
+ENTRY = ["parse_multipart_form_data(config=)", "parse_body_arguments(config=ParseBodyConfig(multipart=))",
+         "set_parse_body_config() + parse_body_arguments()"]
 
 
 @harness(
     pre=pre_lim,
     quick=dict(NPARTS=3, timeout=100),
     thorough=dict(NPARTS=5, timeout=600),
-    nshards=dict(quick=4, thorough=6),
-    reach=["too_many_parts", "header_too_large", "within_limits"],
-    units=["httputil.parse_multipart_form_data (max_parts, max_part_header_size)", "httputil.ParseMultipartConfig"],
+    nshards=dict(quick=12, thorough=18),
+    reach=["too_many_parts", "header_too_large", "within_limits", "disabled", "per_call_config", "global_config",
+           "global_too_many_parts", "per_call_header_too_large"],
+    units=["httputil.parse_multipart_form_data (enabled, max_parts, max_part_header_size)", "httputil.parse_body_arguments "
+           "(config= and the global default)", "httputil.set_parse_body_config", "httputil.ParseBodyConfig / ParseMultipartConfig"],
     stubs=["bodies built by the reference encoder with nparts identical field parts (name of namelen 'n' characters); "
-           "max_parts and max_part_header_size are symbolic ints"],
+           "max_parts, max_part_header_size are symbolic ints (far below the global defaults 100 / 10240), enabled a symbolic bool",
+           "the configuration reaches the parser on a solver-chosen ENTRY PATH: %r; the global default is restored after each path" % (ENTRY,)],
     outside=["exactly max_parts parts: the statement only demands that the limit is enforced; tornado counts the empty "
              "preamble as a part and rejects exactly-max_parts bodies (reported as an observation)"],
 )
-def h_limits(nparts: int, max_parts: int, namelen: int, max_hdr: int):
-    nparts, namelen = IDX[nparts], IDX[namelen]
+def h_limits(nparts: int, max_parts: int, namelen: int, max_hdr: int, entry: int, enabled: bool):
+    nparts, namelen, entry = IDX[nparts], IDX[namelen], IDX[entry]
     name = "n" * namelen
     body = b""
     for _ in range(nparts):
         body += _encode_part(b"B", name, 0, False, None, b"v")
     body += b"--B--\r\n"
     hdr_size = len('Content-Disposition: form-data; name=""') + namelen
-    cfg = ParseMultipartConfig(max_parts=max_parts, max_part_header_size=max_hdr)
+    cfg = ParseMultipartConfig(enabled=enabled, max_parts=max_parts, max_part_header_size=max_hdr)
+    ct = "multipart/form-data; boundary=B"
     args, files = {}, {}
     try:
-        httputil.parse_multipart_form_data(b"B", body, args, files, config=cfg)
+        if entry == 0:
+            httputil.parse_multipart_form_data(b"B", body, args, files, config=cfg)
+        elif entry == 1:
+            reached("per_call_config")
+            httputil.parse_body_arguments(ct, body, args, files, None, config=ParseBodyConfig(multipart=cfg))
+        else:
+            reached("global_config")
+            httputil.set_parse_body_config(ParseBodyConfig(multipart=cfg))
+            try:
+                httputil.parse_body_arguments(ct, body, args, files)
+            finally:
+                httputil.set_parse_body_config(ParseBodyConfig())
         ok = True
     except HTTPInputError:
         ok = False
-    if nparts > max_parts:
+    assert httputil._DEFAULT_PARSE_BODY_CONFIG.multipart.max_parts == 100, "global default not restored"
+    where = ENTRY[entry]
+    if not enabled:
+        reached("disabled")
+        assert not ok, "multipart parsing disabled via %s but the body was parsed" % (where,)
+    elif nparts > max_parts:
         reached("too_many_parts")
-        assert not ok, "%d parts accepted with max_parts=%d" % (nparts, max_parts)
+        if entry == 2:
+            reached("global_too_many_parts")
+        assert not ok, "%d parts accepted with max_parts=%d given via %s" % (nparts, max_parts, where)
     elif nparts > 0 and hdr_size > max_hdr:
         reached("header_too_large")
-        assert not ok, "part header of %d bytes accepted with max_part_header_size=%d" % (hdr_size, max_hdr)
+        if entry == 1:
+            reached("per_call_header_too_large")
+        assert not ok, "part header of %d bytes accepted with max_part_header_size=%d given via %s" % (
+            hdr_size, max_hdr, where)
     elif nparts < max_parts:
         reached("within_limits")
-        assert ok, "%d parts with %d-byte headers rejected (max_parts=%d, max_part_header_size=%d)" % (
-            nparts, hdr_size, max_parts, max_hdr)
+        assert ok, "%d parts with %d-byte headers rejected (max_parts=%d, max_part_header_size=%d via %s)" % (
+            nparts, hdr_size, max_parts, max_hdr, where)
         assert args == ({name: [b"v"] * nparts} if nparts else {})
